@@ -183,6 +183,9 @@ func derived(doc string, maxKeys int, w *vkit.W, hashed bool) {
 func TestCheck(t *testing.T) {
 	r := vkit.Start("C12")
 	defer r.Finish(t)
+	if r.ReplayCold() {
+		return
+	}
 	if r.Replay != "" {
 		var c Case
 		if err := r.LoadReplay(&c); err != nil {
@@ -393,6 +396,8 @@ func TestCheck(t *testing.T) {
 			}
 		})
 	})
+
+	r.ColdPhase(coldFirst)
 
 	// Phase B: top-level scalars and strings x 16 rules
 	r.Phase("B: numbers, strings (with escapes), literals, arrays x 16 rules + truncations/suffixes", func() {
